@@ -871,6 +871,9 @@ def option_sets(draw, mode):
     elif mode == "c14":
         # the equal-size-equal-mtime cell needs deep=True: at job level here (project level is C15's)
         o["deep"] = (not level_project) and draw(st.integers(0, 2)) == 0
+        if level_project and draw(st.integers(0, 3)) == 0:
+            # conflicts must surface from worker threads too
+            o["parallel"] = draw(st.sampled_from([2, True]))
     else:
         o["deep"] = draw(st.integers(0, 7)) == 0
     return o
